@@ -1115,6 +1115,8 @@ fn plan(sh: &Shared, quick: bool) -> (Vec<Item>, Value) {
 	}
 	let (chain, fan, ladder) = if quick { (96, 600, 8) } else { (768, 6000, 12) };
 	items.extend([Item::Chain { n: chain }, Item::Fan { n: fan }, Item::Ladder { n: ladder }]);
+	// a ladder high enough that the number of root→version paths (2^n) is out of reach: resolving must not depend on it
+	items.extend(if quick { vec![Item::Ladder { n: 40 }] } else { vec![Item::Ladder { n: 40 }, Item::Ladder { n: 200 }] });
 	items.extend((0..sh.roots.len()).map(|root| Item::Web { root }));
 	let bounds = json!({
 		"universe": UNIVERSE.iter().map(|c| json!({"class": c.key, "fields": c.fields.iter().map(|f| format!("{}:{}", f.name, f.desc)).collect::<Vec<_>>(), "methods": c.methods.iter().map(|m| format!("{}{} params {:?}", m.name, m.desc, m.params)).collect::<Vec<_>>(), "in_root_states": c.in_roots})).collect::<Vec<_>>(),
@@ -1128,7 +1130,7 @@ fn plan(sh: &Shared, quick: bool) -> (Vec<Item>, Value) {
 		"versions_per_directory_meaning": "the tree of a work item is laid out as several directories, each the way from the root to some version plus complete subtrees below it",
 		"naming": "a third of the versions (and every second root) carry client~server names",
 		"creation_orders": "sorted, reversed, rotated by a third, alternating by directory",
-		"large_shapes": {"chain_edges": chain, "fan_children": fan, "fan_children_with_names_from_the_wild_list": WILD_NAMES.len(), "ladder_diamonds": ladder},
+		"large_shapes": {"chain_edges": chain, "fan_children": fan, "fan_children_with_names_from_the_wild_list": WILD_NAMES.len(), "ladder_diamonds": ladder, "high_ladders_diamonds": if quick { vec![40] } else { vec![40, 200] }},
 		"webs_of_diamonds": "per root state: every single step and, for every two single steps that commute, the version both lead to (two parents, two equally long paths)",
 	});
 	(items, bounds)
